@@ -67,6 +67,9 @@ type PacketWriter interface {
 
 // ReadPacket 根据规范从 r 中读取 rtp 包.
 // channelConfig 提供通道类型所在通道的配置信息
+// A frame on a channel that is not in channelConfig, or whose RTP header does
+// not parse, is returned together with the error (the reader stays in sync);
+// I/O errors and a missing '$' return a nil packet.
 func ReadPacket(r *bufio.Reader, channelConfig []int) (*Packet, error) {
 	var err error
 
@@ -96,13 +99,15 @@ func ReadPacket(r *bufio.Reader, channelConfig []int) (*Packet, error) {
 			p.Channel = byte(i)
 			if p.Channel == ChannelVideo || p.Channel == ChannelAudio {
 				if err = unmarshalHeader(&p.Header, p.Data); err != nil {
-					return nil, err
+					// the frame has been consumed completely: the caller may skip it
+					return p, err
 				}
 			}
 			return p, nil
 		}
 	}
-	return nil, errors.New("RTP Packet illegal channel")
+	// the frame has been consumed completely: the caller may skip it
+	return p, errors.New("RTP Packet illegal channel")
 }
 
 // unmarshalHeader 解析 RTP 头；
